@@ -5,10 +5,14 @@
    children answered; [returned]/[returnedS] values handed to the caller; [dropv t] values with a drop event; [cnt x l] multiplicity.
      Bal / BalS n t : every child x < n has exactly one drop event and nobody else has one; for every value v, #produced = #returned + #dropped.
      BalR n t       : the same for race (the only value produced is returned; no value is dropped).
-     BalG t         : groups - every member ever inserted has exactly one drop event; the values returned are exactly the values produced. *)
+     BalG t         : groups - every member ever inserted has exactly one drop event; the values returned are exactly the values produced.
+     BalK n t       : race_ok - every child exactly one drop event (the Vec algorithm drops a child when it completes, the others with the combinator);
+                      the Ok value produced is the value returned; no value is dropped (errors are plain integers in the harness).
+     BalW t         : wait_until - both children (deadline 0, inner 1) exactly one drop event; every value the inner produced is returned and the
+                      deadline's output is dropped (a deadline is a future: an Item/End answer of child 0 is outside the harness and not counted). *)
 From Coq Require Import List Arith Bool.
 Import ListNotations.
-Require Import ScanFull InstsFull Pass ObligJoin ObligMZ ObligGroups C04Join C08Merge C11Groups C05Join C02Join C02Merge C02Groups C09Zip C02Zip PassProofs PassLedger.
+Require Import ScanFull InstsFull Pass ObligJoin ObligMZ ObligGroups C04Join C08Merge C11Groups C05Join C02Join C02Merge C02Groups C09Zip C02Zip PassProofs PassLedger PassLedger2.
 
 Theorem C02_join_family selective tryj tuple scs ops : let n := length scs in
   Bal n (strip (tr _ (join_world selective tryj tuple scs (ops ++ [ODrop])))).
@@ -28,8 +32,14 @@ Proof. exact (C02_chain scs ops). Qed.
 Theorem C02_race_ledger scs ops : let n := length scs in
   BalR n (strip (tr _ (race_world scs (ops ++ [ODrop])))).
 Proof. exact (C02_race scs ops). Qed.
+Theorem C02_race_ok_ledger kind scs ops : let n := length scs in
+  BalK n (strip (tr _ (race_ok_world kind scs (ops ++ [ODrop])))).
+Proof. exact (C02_race_ok kind scs ops). Qed.
+Theorem C02_wait_until_ledger stream scs ops : BalW (strip (tr _ (wait_world stream scs (ops ++ [ODrop])))).
+Proof. exact (C02_wait_until stream scs ops). Qed.
 Print Assumptions C02_join_family. Print Assumptions C02_merge_ledger. Print Assumptions C02_zip_ledger.
 Print Assumptions C02_group_ledger. Print Assumptions C02_chain_ledger. Print Assumptions C02_race_ledger.
+Print Assumptions C02_race_ok_ledger. Print Assumptions C02_wait_until_ledger.
 
 (* non-vacuity: a try_join whose second child panics after the first has produced a value: the value and all three children are dropped *)
 Example C02_witness :
